@@ -16,6 +16,7 @@ static uv::Cmd cmds[] = {
 	{"lua", cmd_lua},
 	{"tables", cmd_tables},
 	{"validate", cmd_validate},
+	{"trie", cmd_trie},
 	{0, 0}
 };
 int main(int argc, char** argv) {
